@@ -25,10 +25,12 @@ HAZ = {1: "skip-hazard1:skip-after-skip-pending-imcu-row",
        2: "skip-hazard2:skip-mid-rowgroup-separate-upsampler",
        3: "skip-hazard3:merged-upsampler-spare-row",
        4: "skip-hazard4:stale-rows-to-go-overshoot",
-       5: "crop-hazard5:merged-upsampler-reinit"}
+       5: "crop-hazard5:merged-upsampler-reinit",
+       6: "skip-hazard6:context-v4-next-imcu-row-already-decoded"}
 
 SAMPS_STD = ["11", "111111", "211111", "221111", "121111", "411111", "141111"]      # gray 444 422 420 440 411 441
-SAMPS_ODD = ["221212", "222111", "212111", "311111", "131111", "421111", "241111", "11111111", "22111122", "21111121", "22"]
+SAMPS_ODD = ["221212", "222111", "212111", "311111", "131111", "421111", "241111", "11111111", "22111122", "21111121", "22",
+             "141212", "241212", "241111", "141212"]
 SF = [(2, 1), (15, 8), (7, 4), (13, 8), (3, 2), (11, 8), (5, 4), (9, 8), (1, 1), (7, 8), (3, 4), (5, 8), (1, 2), (3, 8), (1, 4), (1, 8)]
 MCUW = {"11": 8, "111111": 8, "211111": 16, "221111": 16, "121111": 8, "411111": 32, "141111": 8}
 
